@@ -6,3 +6,5 @@ import XProofs.Properties.C03
 #print axioms Properties.C03.C03_all_histories
 #print axioms Properties.C03.C03_refresh
 #print axioms Properties.C03.C03_no_stale_ids
+#print axioms Properties.C03.C03_refresh_same_behaviour
+#print axioms Properties.C03.C03_edges_from_tasks
